@@ -363,3 +363,69 @@ SCENARIOS = [
 ]
 
 
+
+
+# ------------------------------------------------------------------ _basic_rules: TransposeTranspose ---
+
+def s_transpose_transpose(ctx, n):
+    """Transpose(Transpose(x, p1), p2): axis i of the result is axis p1[p2[i]] of x (ONNX Transpose: out.shape[i] =
+    in.shape[perm[i]]).  The real rewrite() is run on symbolic permutations of rank n."""
+    from pyvc.values import SInt
+    from onnxscript.rewriter.rules.common import _basic_rules as mod
+    import onnx_ir as ir
+    I = Interp(ctx)
+    W = World(I)
+    rule = SObj(mod.TransposeTranspose, "rule")
+    perms = []
+    for nm in ("p1", "p2"):
+        ts = [ctx.int(f"{nm}_{i}") for i in range(n)]
+        for t in ts:
+            ctx.assume(z3.And(t >= 0, t < n))
+        if n > 1:
+            ctx.assume(z3.Distinct(*ts))
+        for i, t in enumerate(ts):
+            ctx.witness[f"{nm}_{i}"] = t
+        perms.append(ts)
+    attrs = []
+    for nm, ts in zip(("perm1", "perm2"), perms):
+        a = SObj(ir.Attr, nm)
+
+        def as_ints(ts=ts):
+            raise AssertionError
+        I.models[as_ints] = lambda interp, ts=ts: [SInt(t) for t in ts]
+
+        def is_ref():
+            raise AssertionError
+        I.models[is_ref] = lambda interp: False
+        a.fields.update(as_ints=as_ints, is_ref=is_ref)
+        attrs.append(a)
+    x = W.value("x", dims=None, rt=[], dtype=ir.DataType.FLOAT)
+    op = OpRec()
+    r = I.call(I.getattr(rule, "rewrite"), [op, x, attrs[0], attrs[1]])
+    p1, p2 = perms
+
+    def sel(ts, idx):
+        acc = ts[-1]
+        for j in range(n - 2, -1, -1):
+            acc = z3.If(idx == j, ts[j], acc)
+        return acc
+    want = [sel(p1, p2[i]) for i in range(n)]
+    if isinstance(r, Call) and r.op == "Identity":
+        ctx.check("C05.rules.TransposeTranspose.identity_only_when_the_composition_is_the_identity",
+                  z3.And(*[want[i] == i for i in range(n)]), CL)
+        return
+    ok = isinstance(r, Call) and r.op == "Transpose" and r.args and r.args[0] is x and isinstance(r.kwargs.get("perm"), list) and len(r.kwargs["perm"]) == n
+    ctx.check("C05.rules.TransposeTranspose.replacement_is_one_transpose_of_x", ok, CL)
+    if ok:
+        ctx.check("C05.rules.TransposeTranspose.fused_perm_is_p1_after_p2", z3.And(*[term(g) == w for g, w in zip(r.kwargs["perm"], want)]),
+                  "C05: perm composition — axis i of Transpose(Transpose(x, p1), p2) is axis p1[p2[i]] of x")
+
+
+SCENARIOS += [
+    Scenario(f"C05.rules.basic.TransposeTranspose[rank {n}]", _mk(s_transpose_transpose, n),
+             [(RC + "_basic_rules.py", "TransposeTranspose.rewrite"), (RC + "_basic_rules.py", "TransposeTranspose._apply_transposes"),
+              (RC + "_basic_rules.py", "TransposeTranspose._apply_transpose")],
+             kind="bounded", bound=f"rank {n}; every pair of permutations (symbolic)",
+             trusted=["ONNX Transpose: output.shape[i] = input.shape[perm[i]]"], max_paths=20000)
+    for n in (1, 2, 3)
+]
